@@ -13,13 +13,14 @@
 //	                   s<delay> (GRANDPA scheduled change), f<delay> (forced change, best
 //	                   finalised block = the finalised number at that time)
 //	f:<blk>:<round>    finalise block <blk> in round <round> of the current set, as lib/grandpa and
-//	                   dot/digest do: SetFinalisedHash, SetLatestRound, ApplyScheduledChanges
+//	                   dot/digest do: SetJustification, SetPrevotes, SetPrecommits, SetFinalisedHash,
+//	                   SetLatestRound, ApplyScheduledChanges
 //	                   (<blk> may be the finalised head itself: a later round finalising it again)
 //
 // observed:  <log shape> # <one result per prefix>   or  err:<op index>:<what>
 //
 //	log shape: one token per atomic unit, "/" between operations:
-//	  st (the trie batch)  hdr:<blk> blb:<blk> arr:<blk> fsn [hsh:<n>+hsh:<n>..] fh:<round>:<set>=<blk>
+//	  st (the trie batch)  jst:<blk> pv:<round>:<set> pc:<round>:<set> hdr:<blk> blb:<blk> arr:<blk> fsn [hsh:<n>+hsh:<n>..] fh:<round>:<set>=<blk>
 //	  hrs:<round>:<set> lfr:<round> setID:<v> auth:<set> change:<set> (change~:<set> when the key
 //	  already existed: a rewrite of the activation block of an existing set)  other:<key>
 //	prefix result (prefixes from "genesis complete" to the whole log):
@@ -251,6 +252,17 @@ func (w *c36World) finalise(blk int, round uint64) error {
 	if err != nil {
 		return err
 	}
+	// lib/grandpa (finalise) stores the justification of the block and the votes of the round before
+	// it moves the finalised head
+	if err := w.bs.SetJustification(h.Hash(), []byte{0xa, byte(blk), byte(round)}); err != nil {
+		return fmt.Errorf("justification: %w", err)
+	}
+	if err := w.gs.SetPrevotes(round, set, []types.GrandpaSignedVote{}); err != nil {
+		return fmt.Errorf("prevotes: %w", err)
+	}
+	if err := w.gs.SetPrecommits(round, set, []types.GrandpaSignedVote{}); err != nil {
+		return fmt.Errorf("precommits: %w", err)
+	}
 	if err := w.bs.SetFinalisedHash(h.Hash(), round, set); err != nil {
 		return fmt.Errorf("setfinalised: %w", err)
 	}
@@ -299,6 +311,9 @@ func (w *c36World) token(o c36Op) string {
 		if h, ok := c36HasPrefix(r, "arr"); ok {
 			return pre + "arr:" + w.blkOf(h)
 		}
+		if h, ok := c36HasPrefix(r, "jcp"); ok {
+			return pre + "jst:" + w.blkOf(h)
+		}
 		if h, ok := c36HasPrefix(r, "hsh"); ok && len(h) == 8 {
 			return pre + "hsh:" + vu.X(binary.BigEndian.Uint64(h))
 		}
@@ -318,6 +333,12 @@ func (w *c36World) token(o c36Op) string {
 		}
 		if string(r) == "latest_finalised_round" && len(o.v) == 8 {
 			return pre + "lfr:" + vu.X(binary.LittleEndian.Uint64(o.v))
+		}
+		if h, ok := c36HasPrefix(r, "pv"); ok && len(h) == 16 {
+			return pre + "pv:" + vu.X(binary.LittleEndian.Uint64(h[:8])) + ":" + vu.X(binary.LittleEndian.Uint64(h[8:]))
+		}
+		if h, ok := c36HasPrefix(r, "pc"); ok && len(h) == 16 {
+			return pre + "pc:" + vu.X(binary.LittleEndian.Uint64(h[:8])) + ":" + vu.X(binary.LittleEndian.Uint64(h[8:]))
 		}
 		if h, ok := c36HasPrefix(r, "auth"); ok && len(h) == 8 {
 			return pre + "auth:" + vu.X(binary.LittleEndian.Uint64(h))
